@@ -303,6 +303,21 @@ func (c *Ctx) condsAt(fd *ast.FuncDecl, target ast.Node) []condLit {
 			pushed := 0
 			for _, cl := range st.Body.List {
 				cc := cl.(*ast.CaseClause)
+				// the target lies inside one of the case expressions: every earlier case, and every earlier
+				// expression of this case, was false when it is evaluated
+				if st.Tag == nil {
+					for k, e := range cc.List {
+						if contains(e) {
+							for _, prev := range cc.List[:k] {
+								stack = append(stack, condLit{e: prev, neg: true})
+								pushed++
+							}
+							result, found = append([]condLit{}, stack...), true
+							stack = stack[:len(stack)-pushed]
+							return
+						}
+					}
+				}
 				inBody := false
 				for _, b := range cc.Body {
 					if contains(b) {
